@@ -1598,3 +1598,205 @@ Proof.
   destruct (rn_advance_append_pres rw _ _ _ _ Ha (conj C0 (D Er)) A) as (A3 & B3 & _).
   split; [exact A3|congruence].
 Qed.
+
+(* ================================================================== *)
+(* Part E. Traces over C07's op alphabet                                *)
+(* ================================================================== *)
+
+(* the caller-side contract of one call, at the state it is made in *)
+Definition op_wf (n : rawnode) (o : op) : Prop :=
+  match o with
+  | OStep m => msg_wf (nlast n) m
+  | OTick | OCampaign | OPropose _ _ | OProposeCC _ _ _ _ => nroom 1 n
+  | OAdvance _ => advance_pre n /\ nroom 1 n
+  | OAdvanceAppend _ => advance_pre n
+  | OAdvanceAppendAsync _ => commit_pre n
+  | OOnPersistReady k => persist_pre n k
+  | OAdvanceApply | OAdvanceApplyTo _ => is_leader (rn_raft n) = true -> nroom 1 n
+  | OSetStore m => store_write (nlog n) m
+  | OApplyCC _ | OPing | OReady | OReportUnreachable _ | OReportSnapshot _ _
+  | ORequestSnapshot | OTransferLeader _ | OReadIndex _ => True
+  end.
+
+Theorem exec_pres rw n o n' ot :
+  exec n o = Ok (n', ot) -> op_wf n o -> NLI rw n -> NLI rw n'.
+Proof.
+  intros H W HI. destruct o; cbn [exec op_wf] in H, W; unfold quiet, quiet1 in H;
+    try (inv_bind H; inversion H; subst; clear H).
+  - destruct x as [n1 c]. eapply rn_step_pres; eassumption.
+  - destruct x as [n1 c]. eapply rn_tick_pres; eassumption.
+  - destruct x as [n1 c]. eapply rn_campaign_pres; eassumption.
+  - destruct x as [n1 c]. eapply rn_propose_pres; eassumption.
+  - destruct x as [n1 c]. eapply rn_propose_conf_change_pres; eassumption.
+  - destruct x as [n1 c]. eapply rn_apply_conf_change_pres; eassumption.
+  - eapply NLI_same; [eapply rn_ping_log; exact Hx|exact HI].
+  - destruct x as [n1 rd]. eapply NLI_same; [eapply rn_ready_log; exact Hx|exact HI].
+  - destruct x as [n1 lr]. destruct W. eapply rn_advance_pres; eassumption.
+  - destruct x as [n1 lr]. exact (proj1 (rn_advance_append_pres rw _ _ _ _ Hx W HI)).
+  - eapply rn_advance_append_async_pres; eassumption.
+  - exact (proj1 (rn_on_persist_ready_pres rw _ _ _ Hx W HI)).
+  - eapply rn_advance_apply_pres; eassumption.
+  - eapply rn_advance_apply_to_pres; eassumption.
+  - eapply rn_report_unreachable_pres; eassumption.
+  - eapply rn_report_snapshot_pres; eassumption.
+  - destruct x as [n1 c]. eapply NLI_same; [eapply rn_request_snapshot_log; exact Hx|exact HI].
+  - eapply rn_transfer_leader_pres; eassumption.
+  - eapply rn_read_index_pres; eassumption.
+  - inversion H; subst. eapply set_store_pres; eassumption.
+Qed.
+
+(* any sequence of contract-abiding calls *)
+Inductive wrun : rawnode -> rawnode -> Prop :=
+| wrun_nil n : wrun n n
+| wrun_cons n o n1 ot n' : op_wf n o -> exec n o = Ok (n1, ot) -> wrun n1 n' -> wrun n n'.
+
+Theorem wrun_pres rw n n' : wrun n n' -> NLI rw n -> NLI rw n'.
+Proof.
+  intros R. induction R as [|n o n1 ot n' W E R IH]; intros HI; [exact HI|].
+  apply IH. eapply exec_pres; eassumption.
+Qed.
+
+(* what the invariant says in terms of the indexes *)
+Theorem NLI_bounds rw n :
+  NLI rw n ->
+  committed (nlog n) <= last_index (nlog n) /\ last_index (nlog n) < u64_max
+  /\ persisted (nlog n) <= storage_last_index (store (nlog n))
+  /\ persisted (nlog n) <= last_index (nlog n)
+  /\ (rw = false -> applied (nlog n) <= committed (nlog n)).
+Proof.
+  unfold NLI, LI, nlog. intros H. splits.
+  - eapply RepInv_committed_le_last; exact H.
+  - eapply RepInv_last_bound; exact H.
+  - eapply persisted_le_storage_last; exact H.
+  - eapply RepInv_persisted_le_last; exact H.
+  - exact (ri_applied rw _ H).
+Qed.
+
+(* the restart window closes as soon as applied <= committed, and stays closed *)
+Theorem window_closes n n' :
+  NLI true n -> applied (nlog n) <= committed (nlog n) -> wrun n n' ->
+  NLI false n' /\ applied (nlog n') <= committed (nlog n').
+Proof.
+  intros HI Ha R.
+  assert (HF : NLI false n) by (apply RepInv_close_window; assumption).
+  pose proof (wrun_pres false _ _ R HF) as H'. split; [exact H'|].
+  exact (ri_applied false _ H' eq_refl).
+Qed.
+
+(* (3b) from RawNode::new over a well-formed store: the invariant and its index
+   bounds hold at every point of every contract-abiding trace *)
+Theorem trace_from_new c st sa dr n0 n :
+  rn_new c st sa dr = Ok (inr n0) -> SInv st -> trig_log st = false -> wrun n0 n ->
+  NLogOK n
+  /\ committed (nlog n) <= last_index (nlog n) /\ last_index (nlog n) < u64_max
+  /\ persisted (nlog n) <= storage_last_index (store (nlog n))
+  /\ (c_applied c = 0 -> applied (nlog n) <= committed (nlog n)).
+Proof.
+  intros H Hs Hq R. destruct (rn_new_pres _ _ _ _ _ H Hs Hq) as (A & B & _).
+  pose proof (wrun_pres true _ _ R A) as HT.
+  destruct (NLI_bounds true n HT) as (B1 & B2 & B3 & _).
+  splits; auto.
+  - exists true. exact HT.
+  - intros Hz. exact (ri_applied false _ (wrun_pres false _ _ R (B Hz)) eq_refl).
+Qed.
+
+(* with a restart at Config.applied > 0 the clause applied <= committed holds from the
+   first state on in which it holds *)
+Theorem trace_from_new_window c st sa dr n0 n1 n :
+  rn_new c st sa dr = Ok (inr n0) -> SInv st -> trig_log st = false ->
+  wrun n0 n1 -> applied (nlog n1) <= committed (nlog n1) -> wrun n1 n ->
+  applied (nlog n) <= committed (nlog n) /\ committed (nlog n) <= last_index (nlog n).
+Proof.
+  intros H Hs Hq R1 Ha R2. destruct (rn_new_pres _ _ _ _ _ H Hs Hq) as (A & _).
+  pose proof (wrun_pres true _ _ R1 A) as H1.
+  destruct (window_closes _ _ H1 Ha R2) as [HF Hb]. split; [exact Hb|].
+  exact (proj1 (NLI_bounds false n HF)).
+Qed.
+
+(* ---------------- (3c) C07 hand-out without the RepInv hypothesis ---------------- *)
+
+(* what remains of C07's [handout_pre] once RepInv comes from the trace: the
+   hand-out cursor is a proper u64 and nothing was compacted beyond it *)
+Definition handout_side (l : raft_log) (since : N) : Prop :=
+  since < u64_max /\ ll_first (abs l) <= since + 1.
+
+Definition op_pre_node (n : rawnode) (o : op) : Prop :=
+  op_wf n o /\
+  match o with
+  | OReady => handout_side (nlog n) (ready_since n)
+  | OAdvance rd | OAdvanceAppend rd =>
+      forall n1 n2, commit_ready n rd = Ok n1 ->
+                    rn_on_persist_ready n1 (rn_max_number n1) = Ok n2 ->
+                    handout_side (nlog n2) (rn_commit_since_index n2)
+  | _ => True
+  end.
+
+Lemma op_pre_node_op_pre rw n o : NLI rw n -> op_pre_node n o -> op_pre n o.
+Proof.
+  intros HI [W S]. destruct o; cbn [op_pre]; try exact I.
+  - destruct S as [S1 S2]. split; [exists rw; exact HI|split; assumption].
+  - cbn [op_wf] in W. destruct W as [[P1 P2] _]. intros n1 n2 H1 H2.
+    destruct (S n1 n2 H1 H2) as [S1 S2].
+    destruct (commit_ready_pres rw _ _ _ H1 P1 HI) as (A1 & _ & C1 & (_ & D2 & _) & E1 & F1).
+    assert (P2' : persist_pre n1 (rn_max_number n1)).
+    { unfold persist_pre in *. rewrite E1, F1, D2, C1. exact P2. }
+    destruct (rn_on_persist_ready_pres rw _ _ _ H2 P2' A1) as (A2 & _).
+    split; [exists rw; exact A2|split; assumption].
+  - cbn [op_wf] in W. destruct W as [P1 P2]. intros n1 n2 H1 H2.
+    destruct (S n1 n2 H1 H2) as [S1 S2].
+    destruct (commit_ready_pres rw _ _ _ H1 P1 HI) as (A1 & _ & C1 & (_ & D2 & _) & E1 & F1).
+    assert (P2' : persist_pre n1 (rn_max_number n1)).
+    { unfold persist_pre in *. rewrite E1, F1, D2, C1. exact P2. }
+    destruct (rn_on_persist_ready_pres rw _ _ _ H2 P2' A1) as (A2 & _).
+    split; [exists rw; exact A2|split; assumption].
+Qed.
+
+Inductive nrun : rawnode -> hist -> rawnode -> hist -> Prop :=
+| nrun_nil n h : nrun n h n h
+| nrun_cons n h o n1 ot n' h' :
+    op_pre_node n o -> exec n o = Ok (n1, ot) -> nrun n1 (hist_step h ot) n' h' -> nrun n h n' h'.
+
+Theorem handout_contiguous_node rw n h n' h' :
+  NLI rw n -> Hist n h -> nrun n h n' h' -> Hist n' h' /\ NLI rw n'.
+Proof.
+  intros HI HH R. induction R as [|n h o n1 ot n' h' Hp He R IH]; [split; assumption|].
+  apply IH.
+  - eapply exec_pres; [exact He|exact (proj1 Hp)|exact HI].
+  - eapply handout_exec; [exact HH|eapply op_pre_node_op_pre; eassumption|exact He].
+Qed.
+
+Theorem handout_contiguous_from_new c st sa dr n0 n h :
+  rn_new c st sa dr = Ok (inr n0) -> SInv st -> trig_log st = false ->
+  nrun n0 (c_applied c, []) n h -> Hist n h /\ NLogOK n.
+Proof.
+  intros H Hs Hq R. destruct (rn_new_pres _ _ _ _ _ H Hs Hq) as (A & _).
+  destruct (handout_contiguous_node true _ _ _ _ A (handout_init _ _ _ _ _ H) R) as [B C0].
+  split; [exact B|exists true; exact C0].
+Qed.
+
+(* ---------------- (3c) C13 append_entries_contiguous ---------------- *)
+Theorem append_entries_contiguous_node r to pr ae r' pr' m :
+  LogOK r -> r_batch_append r = false ->
+  maybe_send_append r to pr ae = Ok (r', pr', true) ->
+  r_msgs r' = r_msgs r ++ [m] -> m_type m = MsgAppend ->
+  contiguous_from (m_index m + 1) (m_entries m) /\
+  from_log (r_log r) (m_index m + 1) (m_entries m) /\
+  (r_max_msg_size r <> NO_LIMIT ->
+     total_size entry_size (m_entries m) <= r_max_msg_size r \/ length (m_entries m) = 1%nat).
+Proof.
+  intros [rw HI]. apply append_entries_contiguous. eapply RepInv_LogInv; exact HI.
+Qed.
+
+Theorem append_entries_contiguous_from_new c st sa dr n0 n to pr ae r' pr' m :
+  rn_new c st sa dr = Ok (inr n0) -> SInv st -> trig_log st = false -> wrun n0 n ->
+  r_batch_append (rn_raft n) = false ->
+  maybe_send_append (rn_raft n) to pr ae = Ok (r', pr', true) ->
+  r_msgs r' = r_msgs (rn_raft n) ++ [m] -> m_type m = MsgAppend ->
+  contiguous_from (m_index m + 1) (m_entries m) /\
+  from_log (nlog n) (m_index m + 1) (m_entries m).
+Proof.
+  intros H Hs Hq R Hb Hm Hms Ht.
+  destruct (trace_from_new _ _ _ _ _ _ H Hs Hq R) as (A & _).
+  destruct (append_entries_contiguous_node _ _ _ _ _ _ _ A Hb Hm Hms Ht) as (B & C0 & _).
+  split; assumption.
+Qed.
